@@ -586,7 +586,19 @@ func genReloadCase(r *prng.R) []string {
 		if last != "" && r.Chance(35) {
 			req = last // the same configuration applied again
 		}
+		if last != "" && r.Chance(20) {
+			// manage-all toggled against the previous request, same endpoints
+			if strings.HasPrefix(last, "reload g=0") {
+				req = "reload g=1" + last[len("reload g=0"):]
+			} else {
+				req = "reload g=0" + last[len("reload g=1"):]
+			}
+		}
 		last = req
+		if r.Chance(15) {
+			// the admin server refuses some of the PUTs of this update (any fault point of the request)
+			ops = append(ops, fmt.Sprintf("fail put=%d del=0", r.Range(1, 3)))
+		}
 		ops = append(ops, req)
 		if r.Chance(40) {
 			ops = append(ops, "managed?")
@@ -604,8 +616,34 @@ func genReloadCase(r *prng.R) []string {
 	return ops
 }
 
+// scripted reload families: manage-all on/off/on inside the grace period, refused DELETEs of a single job,
+// a refused PUT at every position of an update
+func genReloadFamily(r *prng.R, k int) []string {
+	ops := []string{"mode reload"}
+	x := "GET@api.com/x"
+	gap := prng.Pick(r, []int64{0, 1, 10000, 29999})
+	switch k % 4 {
+	case 0: // global on -> off -> on within 30 s, then look after the first and the second deadline
+		ops = append(ops, "reload g=1 eps="+x, "reload g=0 eps="+x, fmt.Sprintf("advance ms=%d", gap),
+			"reload g=1 eps="+x, fmt.Sprintf("advance ms=%d", 30000-gap), "managed?", "advance ms=30000", "managed?")
+	case 1: // entries A -> B -> A
+		ops = append(ops, "reload g=0 eps="+x, "reload g=0 eps=POST@api.com/y", fmt.Sprintf("advance ms=%d", gap),
+			"reload g=0 eps="+x, fmt.Sprintf("advance ms=%d", 30000-gap), "managed?", "advance ms=30000", "managed?")
+	case 2: // one pending job, its DELETEs refused
+		ops = append(ops, "reload g=0 eps="+x+";POST@api.com/y;PUT@api.com/z", "advance ms=60000",
+			"reload g=0 eps="+x, fmt.Sprintf("fail put=0 del=%d", r.Range(1, 2)), "advance ms=30000", "managed?")
+	default: // a PUT refused at position p of an update that adds entries; retry
+		p := r.Range(1, 3)
+		ops = append(ops, "reload g=0 eps="+x, "managed?", fmt.Sprintf("fail put=%d del=0", p),
+			"reload g=0 eps=POST@api.com/y;PUT@api.com/z;GET@api.com/w", "managed?", "advance ms=30000", "managed?",
+			"reload g=0 eps=POST@api.com/y;PUT@api.com/z;GET@api.com/w", "advance ms=30000", "managed?",
+			"fail put=1 del=0", "reload g=1 eps="+x, "advance ms=30000", "managed?")
+	}
+	return ops
+}
+
 var malformed = []string{"fmt m=GET", "re e=a", "bogus", "flow name=f1", "req m=GET", "build now", "mode both", "policy name=p m=GET url=a.com",
-	"reload g=0", "advance ms=x", "managed? now"}
+	"reload g=0", "advance ms=x", "managed? now", "fail put=1"}
 
 func gen(r *prng.R, f proto.Flags, emit func(proto.Case)) {
 	nFmt, nRe, nFlows, nPol, enumLen, nReload := 200, 500, 1500, 700, 3, 150
@@ -667,6 +705,10 @@ func gen(r *prng.R, f proto.Flags, emit func(proto.Case)) {
 	for k := 0; k < nReload; k++ {
 		rr := r.Fork()
 		out("rl", genReloadCase(rr), rr)
+	}
+	for k := 0; k < nReload/5+8; k++ {
+		rr := r.Fork()
+		out("rf", genReloadFamily(rr, k), nil)
 	}
 	// exhaustive: every expression of length <= enumLen over the metacharacter alphabet x fixed subjects
 	var batch []string
